@@ -9,4 +9,7 @@ def run(P, R, L):
     R.clause("GRD-6", "end-of-log is reported only for ErrorKind::UnexpectedEof of the physical read or the cursor-at-length test; short "
              "header/payload reads become UnexpectedEof and never reach the fragment parser")
     K.grd6(P, R, L)
+    R.clause("GRD-11", "a log re-opened for appending continues at block offset len % BLOCK_SIZE for every non-empty file; writer and reader "
+             "use the same trailer test")
+    K.grd11_reopen_offset(P, R, L)
     R.not_decided += ["all block-boundary arithmetic: header 7, block 32768, trailer padding, `len % 32768` on reopen (value level)"]
